@@ -17,6 +17,7 @@ import (
 	"sort"
 	"strings"
 	"sync"
+	"sync/atomic"
 	"time"
 
 	jsonrpc "github.com/filecoin-project/go-jsonrpc"
@@ -352,7 +353,113 @@ func Cancellation(d *fw.Driver, res *fw.Result, seed int64, thorough bool) error
 	if err := rawIDCancel(res, seed); err != nil {
 		return err
 	}
+	if err := serverEndsOthers(res, seed); err != nil {
+		return err
+	}
 	return httpCancel(res)
+}
+
+// serverEndsOthers: subscriptions that end on the server side (the handler closes its channel) must not
+// touch the contexts of the subscriptions that stay open: open a, the server ends a; open b; open c, the
+// server ends c; b's handler context must still be live, b must still deliver, and cancelling b must still
+// reach b's handler.
+func serverEndsOthers(res *fw.Result, seed int64) error {
+	e, err := scen.NewEnv(seed+777, 1)
+	if err != nil {
+		return err
+	}
+	defer e.Close()
+	ctx, cancelAll := context.WithCancel(context.Background())
+	defer cancelAll()
+	cl, closer, err := e.Client(ctx, jsonrpc.WithNoReconnect())
+	if err != nil {
+		return err
+	}
+	defer scen.WithTimeout(3*time.Second, closer)
+	sig := "server-side end of one subscription vs the contexts of the others"
+	base := 780000
+	type sub struct {
+		tok    int
+		ch     <-chan int
+		cancel context.CancelFunc
+		n      int32
+		closed chan struct{}
+	}
+	open := func(tok int) (*sub, error) {
+		sctx, sc := context.WithCancel(ctx)
+		ch, err := cl.SubEnd(sctx, tok)
+		if err != nil || ch == nil {
+			sc()
+			return nil, fmt.Errorf("harness error: SubEnd: %v", err)
+		}
+		s := &sub{tok: tok, ch: ch, cancel: sc, closed: make(chan struct{})}
+		go func() {
+			defer close(s.closed)
+			for range ch {
+				atomic.AddInt32(&s.n, 1)
+			}
+		}()
+		return s, nil
+	}
+	endByServer := func(s *sub) bool {
+		e.H.C.Release(s.tok)
+		select {
+		case <-s.closed:
+			return true
+		case <-time.After(3 * time.Second):
+			return false
+		}
+	}
+	c := map[string]interface{}{"scenario": "server-ends-others"}
+	a, err := open(base + 1)
+	if err != nil {
+		return err
+	}
+	if !endByServer(a) {
+		res.Add(fw.Finding{Kind: "monitor", Signature: sig + " a not closed", Detail: "subscription a was not closed after its handler closed its channel", Case: c})
+		return nil
+	}
+	b, err := open(base + 2)
+	if err != nil {
+		return err
+	}
+	cc, err := open(base + 3)
+	if err != nil {
+		return err
+	}
+	if !endByServer(cc) {
+		res.Add(fw.Finding{Kind: "monitor", Signature: sig + " c not closed", Detail: "subscription c was not closed after its handler closed its channel", Case: c})
+	}
+	time.Sleep(20 * time.Millisecond)
+	if cancelled, known := e.H.C.CtxErr(b.tok); known && cancelled {
+		res.Add(fw.Finding{Kind: "monitor", Signature: sig + " spurious cancellation", Detail: "the handler context of the open subscription b was cancelled when other subscriptions were ended by the server, although b's caller did not cancel and the connection is healthy", Case: c})
+	}
+	n0 := atomic.LoadInt32(&b.n)
+	time.Sleep(10 * time.Millisecond)
+	if atomic.LoadInt32(&b.n) == n0 {
+		select {
+		case <-b.closed:
+			res.Add(fw.Finding{Kind: "monitor", Signature: sig + " b closed", Detail: "the open subscription b was closed although neither its handler nor its caller ended it", Case: c})
+		default:
+			res.Add(fw.Finding{Kind: "monitor", Signature: sig + " b stalled", Detail: "the open subscription b stopped delivering values", Case: c})
+		}
+	}
+	// cancelling b still reaches b's handler
+	b.cancel()
+	ok := false
+	for w := 0; w < 2000; w++ {
+		if cancelled, known := e.H.C.CtxErr(b.tok); known && cancelled {
+			ok = true
+			break
+		}
+		time.Sleep(time.Millisecond)
+	}
+	if !ok {
+		res.Add(fw.Finding{Kind: "monitor", Signature: sig + " cancellation not delivered", Detail: "cancelling the open subscription b did not reach its handler after other subscriptions had been ended by the server", Case: c})
+	}
+	res.Count("server-ends-others")
+	res.Eval(true, []interface{}{"server-ends-others"})
+	return nil
 }
 
 // rawIDCancel: a peer that is not this library's client — request ids of every valid JSON type (string,
